@@ -149,6 +149,72 @@ class MethodCase(FnCase):
             r.append(V.i(self.value) >= 0)
         return r
 
+    def replay(self, model):
+        """native replay: a real MemoryStore is put into the model's pre-state, the real method is called, and the same ensures clauses are
+        evaluated on the real post-state"""
+        if self.kind == 'dict':
+            return None
+        import importlib
+        from array import array
+        from ..replay import Concretizer
+        from ..engine import Path
+        conc = Concretizer(model)
+        o = self.o
+        n = max(0, min(conc.ev(o.n).as_long(), 64))
+        ms = importlib.import_module(MOD)
+        default = None
+        if self.with_default:
+            default = {'int': lambda: conc.ev(V.i(o.default_t)).as_long(), 'real': lambda: conc.val(V.VReal(V.r(o.default_t))), 'val': lambda: conc.val(o.default_t)}[self.kind]() \
+                if self.dtype != 'bool' else z3.is_true(conc.ev(V.b(o.default_t)))
+        real = ms.MemoryStore(data_type={'int': int, 'float': float, 'bool': bool}.get(self.dtype, self.dtype), default_value=default)
+        def elem(j):
+            t = Select(o.values_a, IntVal(j))
+            if self.kind == 'int': return conc.ev(V.i(t)).as_long() % (256 if self.code == 'B' else 2 ** 63)
+            if self.kind == 'real': return conc.val(V.VReal(V.r(t)))
+            return conc.val(t)
+        states = [conc.ev(o.S(IntVal(j))).as_long() % 3 for j in range(n)]
+        real.state = array('B', states)
+        vals = [elem(j) for j in range(n)]
+        real.values = (array(self.code, vals) if self.code else list(vals))
+        real.keys = [((j, (0,)) if states[j] != 2 else 2) for j in range(n)]
+        key = conc.key(Const('key', Key))
+        args = [key]
+        if self.method == 'set':
+            v = conc.ev(V.i(self.value)).as_long() if self.kind == 'int' and self.dtype != 'bool' else (z3.is_true(conc.ev(V.b(self.value))) if self.dtype == 'bool' else
+                 (conc.val(V.VReal(V.r(self.value))) if self.kind == 'real' else conc.val(self.value)))
+            args.append(v)
+        exc = None; ret = None
+        try:
+            ret = getattr(real, self.method)(*args)
+        except Exception as ex:
+            exc = ex
+        if exc is not None:
+            return {'status': 'reproduced', 'data_type': self.dtype, 'pre': {'state': states, 'values': [repr(x) for x in vals]}, 'call': f'{self.method}{tuple(args)!r}',
+                    'failed_clauses': [('no_exception', f'{type(exc).__name__}: {exc}')]}
+        # synthetic post-state
+        q = Path()
+        def arr_of(pylist, conv, base):
+            a = base
+            for j, x in enumerate(pylist):
+                a = Store(a, IntVal(j), conv(x))
+            return a
+        tv = (lambda x: V.VInt(IntVal(int(x)))) if self.kind == 'int' else (lambda x: conc.term(float(x))) if self.kind == 'real' else conc.term
+        q.heap[o.state.oid] = ('arr', arr_of(list(real.state), lambda x: V.VInt(IntVal(int(x))), o.state_a), IntVal(len(real.state)), 'int', 'B')
+        q.heap[o.values.oid] = ('arr', arr_of(list(real.values), tv, o.values_a), IntVal(len(real.values)), self.kind, self.code)
+        q.heap[o.keys.oid] = ('arr', o.keys_a, IntVal(len(real.keys)), 'val', None)
+        import rxsci as rs
+        if ret is rs.state.markers.STATE_NOTSET: rsv = Sentinel(SENT_NOTSET)
+        elif isinstance(ret, bool) or ret is None or isinstance(ret, (int, float, str)): rsv = ret
+        else: rsv = SVal(conc.term(ret))
+        failed = []
+        for ent in self.ensures(q, rsv):
+            val = z3.simplify(conc.m.eval(ent[1], model_completion=True))
+            if z3.is_false(val):
+                failed.append((ent[0], 'false on the real post-state'))
+        return {'status': 'reproduced' if failed else 'not-reproduced', 'data_type': self.dtype, 'default': repr(default),
+                'pre': {'state_markers': states, 'values': [repr(x) for x in vals]}, 'call': f'{self.method}{tuple(args)!r}', 'returned': repr(ret),
+                'post': {'state_markers': list(real.state), 'values': [repr(x) for x in list(real.values)]}, 'failed_clauses': failed}
+
     def typed(self, sv):
         e = self.eng
         if self.dtype in ('int', 'uint'): return V.VInt(e.to_int(Path(), sv))
@@ -348,6 +414,47 @@ class InitCase(FnCase):
         return out
 
 
+iterS = Function('iterate_spec', IntSort(), ValSeq)     # what iterate() has yielded after looking at cells 0..j-1
+
+
+class IterateCase(FnCase):
+    """MemoryStore.iterate(): yields (key, value, is_set) for exactly the cells that are not cleared, in ascending index order"""
+
+    def __init__(self, dtype, kind, code):
+        self.dtype = dtype; self.kind = kind; self.code = code
+        self.name = f'MemoryStore.iterate[{dtype}]'
+        self.loop_contracts = {(f'{MOD}.MemoryStore.iterate', 0): InvLoop(self.inv, modifies=('trace', 'locals'), lemmas=self.lemmas)}
+
+    def item(self, j):
+        o = self.o
+        v = Select(o.values_a, j)
+        if self.kind == 'int': v = V.VInt(V.i(v))          # typed arrays hand back numbers of their element type
+        elif self.kind == 'real': v = V.VReal(V.r(v))
+        return tup(Select(o.keys_a, j), v, V.VBool(o.S(j) == M_SET))
+
+    def inv(self, L, q, j):
+        return [('yielded_so_far', q.ghost['yields'][-1] == iterS(j))]
+
+    def lemmas(self, L, q, j):
+        o = self.o
+        return [iterS(IntVal(0)) == Empty(ValSeq),
+                Implies(And(j >= 0, j < o.n), iterS(j + 1) == If(o.S(j) != M_ABSENT, Concat(iterS(j), Unit(self.item(j))), iterS(j)))]
+
+    def setup(self, eng, p):
+        self.eng = eng
+        self.o = StoreObj(eng, p, self.dtype, self.kind, self.code, False)
+        return eng.world.class_method((MOD, 'MemoryStore'), 'iterate'), [self.o.ref], {}
+
+    def requires(self):
+        return self.o.wf() + [iterS(IntVal(0)) == Empty(ValSeq)]
+
+    def ensures(self, q, ret):
+        o = self.o
+        cs, cv, ck = o.post(q)
+        return [('yields_exactly_the_non_cleared_cells_in_index_order', ret.seq == iterS(o.n) if isinstance(ret, Host) and ret.kind == 'seqiter' else BoolVal(False)),
+                ('pure', And(cs[1] == o.state_a, cv[1] == o.values_a, cs[2] == o.n))]
+
+
 class NewIndexCase(FnCase):
     name = 'new_index'
 
@@ -479,6 +586,8 @@ def unit_store_misc(opts):
     for (dtype, kind, code) in DTYPES:
         for wd in ((False, True) if dtype != 'mapper' else (False,)):
             cases.append(InitCase(dtype, kind, code, wd))
+        if dtype in ('int', 'obj', 'bool'):
+            cases.append(IterateCase(dtype, kind, code))
     for m, t, n in (('add_key', 'add_key', 0), ('del_key', 'del_key', 0), ('set', 'set', 1), ('get', 'get', 0), ('add_map', 'add_map', 1), ('get_map', 'get_map', 1), ('del_map', 'del_map', 1)):
         cases.append(DelegationCase('Store', m, t, n))
     for m, t, n in (('add_key', 'add_key', 0), ('del_key', 'del_key', 0), ('set_state', 'set', 1), ('get_state', 'get', 0), ('add_map', 'add_map', 1), ('get_map', 'get_map', 1), ('del_map', 'del_map', 1)):
